@@ -193,8 +193,36 @@ def choose_ks(word, N, cap, rng):
     return sorted(ks)
 
 
+def replay(cx):
+    """bin/check C15 --replay f : re-run one stored (program, k) and its uncancelled reference on the real code."""
+    d = json.load(open(cx.replay_mode))
+    rep = d.get("replay") or {}
+    line, variant = rep.get("program"), rep.get("variant", "seq")
+    if not line or not hook_present():
+        cx.broke("replay", "nothing to replay (no program in the file, or the hook is not applied to %s)" % vp.REPO)
+        return
+    exe = vp.build_harness("c15_cancel", variant, link_lib=True, extra=["-DVERIF_HAS_HOOK"])
+    t = line.split()
+    ref = " ".join(t[:2] + ["0"] + t[3:])
+    rc, out, err = vp.sh2([exe], input=ref + "\n" + line + "\n", timeout=600)
+    R, W, PW = parse_out(out)
+    r0, r = R.get((t[1], 0)), R.get((t[1], int(t[2])))
+    print("reference :", r0)
+    print("k=%s      :" % t[2], r)
+    print("site word :", " ".join("%s%s*%d" % (a, "!" if b else "", c) for a, b, c in W.get((t[1], int(t[2])), []))[-600:])
+    print("progress  :", " ".join("%d/%d*%d" % x for x in PW.get((t[1], int(t[2])), []))[-300:])
+    if r0 and r and int(t[2]) > 0:
+        st, empty = int(r["st"]), int(r["empty"])
+        if not ((st == CANCELLED and empty == 1) or (st == int(r0["st"]) and r["h"] == r0["h"])):
+            cx.violation(d.get("key", "replayed"), "replayed: status %d, hash %s vs reference %s" % (st, r["h"], r0["h"]), rep)
+    if r0 and int(r0["st"]) == 0 and r0["done"] != r0["total"]:
+        cx.violation(d.get("key", "replayed"), "replayed: uncancelled evaluation ends with %s/%s" % (r0["done"], r0["total"]), rep)
+
+
 # ---------------------------------------------------------------- run
 def run(cx):
+    if cx.replay_mode:
+        return replay(cx)
     cx.assumptions += [
         "translator (translate/c15_sites.py): token-level path analysis decides which statements can follow a ctx-aware call before the next aborting check; "
         "declarations, releases, returns of callees and 14 allow-listed statements (each with a justification in the translator) count as neutral",
@@ -275,6 +303,10 @@ def run(cx):
     totals = {"evaluations": 0, "nontrivial": 0, "dist": {}, "samples": 0}
     for variant in variants:
         dynamic(cx, tr, drv, variant, totals)
+    ign = [k for k in os.environ.get("VERIF_C15_IGNORE", "").split(",") if k]
+    if ign:      # self-validation aid only (mutant runs before a finding is listed in known_findings.txt); never set by bin/check
+        cx.notes.append("violation keys dropped by VERIF_C15_IGNORE: %s" % ign)
+        cx.violations = [v for v in cx.violations if v[0] not in ign]
     cx.cov.update({"evaluations": totals["evaluations"], "distinct_nontrivial": totals["nontrivial"],
                    "rule": "one evaluation = one program run with cancel injected at check k; non-trivial = 1 <= k <= N (the flag is read true by some check); "
                            "distinct by (program, variant, k)",
@@ -340,7 +372,7 @@ def dynamic(cx, tr, drv, variant, totals):
         check_progress_word(cx, p, 0, P0.get((p["name"], 0), []), variant, completed=True)
 
     # cancel injection
-    cap = 60 if cx.quick() else 10 ** 9
+    cap = 40 if cx.quick() else 10 ** 9
     lines, plan = [], {}
     for p in progs:
         r = refs.get(p["name"])
